@@ -156,6 +156,9 @@ func c03(r *rng, tier string, o *out) {
 		for _, v := range viol {
 			o.violation(idx, v)
 		}
+		if tag == "ser_unsorted" || tag == "deser_malformed" || tag == "deser_chk_malformed" {
+			o.outside(idx, "not a valid directory (unsorted entries / truncated or corrupted bytes): the property speaks of valid directories; malformed archives are C10's subject")
+		}
 	}
 	for c := 0; c < n; c++ {
 		ne := r.intn(40)
